@@ -228,7 +228,11 @@ class ECDSAKey(PKey):
         return m
 
     def verify_ssh_sig(self, data, msg):
-        if msg.get_text() != self.ecdsa_curve.key_format_identifier:
+        try:
+            if msg.get_text() != self.ecdsa_curve.key_format_identifier:
+                return False
+        except UnicodeDecodeError:
+            # an algorithm name that is not even text names no algorithm
             return False
         sig = msg.get_binary()
         sigR, sigS = self._sigdecode(sig)
